@@ -659,6 +659,7 @@ func TestReplay(t *testing.T) {
 			return check(&p)
 		},
 		"redef": replayRedef,
+		"redefvariadic": replayRedefVariadic,
 		"arity": func(raw json.RawMessage) *ev.Failure {
 			var c ErrCase
 			json.Unmarshal(raw, &c)
